@@ -55,9 +55,17 @@ def sites(repo):
         rel = os.path.relpath(f, repo)
         lines = open(f).read().split("\n")
         in_test = False
+        in_block_comment = False
         skip_hook = 0
         for i, line in enumerate(lines):
             st = line.strip()
+            if in_block_comment:
+                if "*/" in line:
+                    in_block_comment = False
+                continue
+            if st.startswith("/*") and "*/" not in line:
+                in_block_comment = True
+                continue
             if st.startswith("#[cfg(test)]"):
                 in_test = True
             if in_test:
